@@ -31,8 +31,8 @@ EXPLANATION = (
 
 def run(ctx: Ctx):
     # ownership / table obligations first: they do not depend on the shape of the back-end selection code
-    check_solve_is_read_only(ctx, "C05-O12")
-    check_id_allocation(ctx, "C05-O10")
+    ctx.step(check_solve_is_read_only, "C05-O12")
+    ctx.step(check_id_allocation, "C05-O10")
     ctags, etags = produced_tags(ctx)
     ctx.floor("constraint tags produced by cp.py", len(ctags), 12)
     ctx.floor("expression tags produced by cp.py", len(etags), 4)
@@ -83,7 +83,7 @@ def run(ctx: Ctx):
         o3_ok[f.module.rel] = not falls
         ctx.ob("C05-O3", "R11 TOTAL-DISPATCH", f, "linear-shape dispatch is total", not falls, f"{n_arms} structural shape tests" + ("; the path on which all are false reaches a normal return without any handler: constraints of other shapes are dropped" if falls else " (none: the linear form is handled generally)" if not n_arms else ""), node=f.node)
     ctx.counters["structural shape tests"] = n_shape_tests
-    _fixture_must_fire(ctx)
+    ctx.step(_fixture_must_fire)
 
     # O4 leaf gate
     bt = ctx.func("cp", "Model._solve_dfs.backtrack")
@@ -125,18 +125,18 @@ def run(ctx: Ctx):
 
     from .sat_common import _need
 
-    _need(ctx, "C05-O4", "R14 GATE", ctx.func("cp", "Model._propagate"), "propagation fails on an empty domain before and after every constraint pass (a variable with an empty range has no value even in a model without constraints)", ["if any((not d for d in domains.values())):\n        return False", "for n, d in domains.items():\n                if not d:\n                    return False"], "without the test in front a model whose only flaw is an empty range reaches the leaf, where the value of that variable is read from an empty set")
+    ctx.step(_need, "C05-O4", "R14 GATE", ctx.func("cp", "Model._propagate"), "propagation fails on an empty domain before and after every constraint pass (a variable with an empty range has no value even in a model without constraints)", ["if any((not d for d in domains.values())):\n        return False", "for n, d in domains.items():\n                if not d:\n                    return False"], "without the test in front a model whose only flaw is an empty range reaches the leaf, where the value of that variable is read from an empty set")
     # O5 hints
-    check_hints(ctx, dfs, sink="domains")
-    check_hints(ctx, ctx.func("cp_encoder", "SATEncoder.solve"), sink="assumptions")
+    ctx.step(check_hints, dfs, sink="domains")
+    ctx.step(check_hints, ctx.func("cp_encoder", "SATEncoder.solve"), sink="assumptions")
 
     # O7 domains only narrowed by propagators
-    check_narrowing(ctx)
-    check_exact_division(ctx)
-    check_alldiff_coverage(ctx, "C05-O9")
-    check_cumulative_horizon(ctx, "C05-O11")
-    check_constraint_table(ctx, "C05-O13")
-    check_small_semantics(ctx, "C05-O14", encoder=True, dfs=True)
+    ctx.step(check_narrowing)
+    ctx.step(check_exact_division)
+    ctx.step(check_alldiff_coverage, "C05-O9")
+    ctx.step(check_cumulative_horizon, "C05-O11")
+    ctx.step(check_constraint_table, "C05-O13")
+    ctx.step(check_small_semantics, "C05-O14", encoder=True, dfs=True)
     generic_sweeps(ctx, skip_stutter_modules=("solvor/sat.py",))
 
 
